@@ -20,13 +20,15 @@ ID = "C20"
 HERE = os.path.dirname(os.path.dirname(os.path.abspath(__file__)))
 DRIVER = os.path.join(HERE, "strl", "build", "strl_driver")
 BOUNDS = ("trees of 2-3 tasks; a task is a Max over 1-3 Choose leaves, a single Choose, a WindowedChoose (alone or under a Max), a MalleableChoose or an Allocation (running task); tasks are combined by Objective, Min, LessThan (also nested, over Min, over an Allocation), Scale, "
-          "and a Max shared by two parents; 1-2 partitions of quantity 1-3, numRequired 1-2, durations 1-3, times 0-8, now in {0, one grid step}, discretisation 1-3 with starts on the grid, every subset of {critical-path, capacity-constraint-purge} passes; the dynamic discretisation pass (maxDiscretization 2, 3, 5 on the unit grid) on the shapes built from Max-over-Choose")
+          "and a Max shared by two parents; 1-2 partitions of quantity 1-3, numRequired 1-2, durations 1-3, times 0-10, now in {0, one grid step (unit grid), one past a grid point (coarse grids: the first option is then in the past)}, discretisation 1-3 with starts on the grid, every subset of {critical-path, capacity-constraint-purge} passes; the dynamic discretisation pass (maxDiscretization 2, 3, 5 on the unit grid) on the shapes built from Max-over-Choose")
 OUTSIDE = ("the adaptive discretisation of the Python front-end; finerDiscretizationAtPrevSolution; trees with more than 3 tasks / 9 leaves; start times off the discretisation grid (the Python front-end only emits multiples of the discretisation); zero or negative utilities; "
            "WindowedChoose windows that begin before `now`; Min whose children are all Allocations; solver back-ends (Gurobi/CPLEX/OR-tools translation of the SolverModel is not compiled)")
 ASSUMPTIONS = ["a SolverModel variable without an explicit lower bound is >= 0 and one without an upper bound is unbounded above, as GurobiSolver::translateVariable and CPLEXSolver::translateVariable do (the solver back-ends themselves are not compiled)",
                "the C++ library is compiled unchanged with g++ -std=c++20 -fno-access-control against a sequential shim of tbb::{concurrent_hash_map, concurrent_vector, parallel_for, blocked_range, task_group}",
                "read-back relation (leaf satisfied <=> indicator = 1 and every ancestor has utility; allocation of a leaf = its partition variables over [start, start+duration) resp. one grid slot for MalleableChoose) is validated on every z3 model used, through the driver's replay mode (real populateResults())",
                "reference semantics of STRL (checks/c20.py: ref()) written from the operator definitions: Choose = exactly numRequired units for the whole duration, Max = at most one child, Min = all or none, LessThan = both or neither and first ends before second starts, Scale = multiply utility, Objective = sum, Allocation = fixed usage with no utility"]
+ENGINE = ("strl2smt: /repo's C++ STRL library is compiled on every run (g++, sequential TBB shim) into a driver that builds each tree with the real constructors, runs the real passes and parse(), "
+          "and dumps the SolverModel; the dump is translated to z3 and the properties are asserted over ALL its solutions; every z3 model used is read back by the real populateResults()")
 EXPLANATION = "all-solutions SMT queries over the model emitted by the real C++ STRL compiler; optimum compared with an independent reference (plain-solver maximisation on both; z3.Optimize is not trusted, see vlib/opt.py)"
 REQUIRED_LABELS = ["C20:capacity-within-quantity", "C20:choose-gets-exactly-its-demand", "C20:max-at-most-one-child", "C20:min-all-children", "C20:lessthan-ordered", "C20:lessthan-both-or-neither",
                    "C20:utility-equals-objective", "C20:optimum-equals-reference", "C20:passes-preserve-optimum", "C20:coarser-grid-only-loses-utility", "C20:readback-matches-populateResults",
